@@ -991,7 +991,13 @@ func checkIPv6(data string) bool {
 	}
 	fragments := std.StringSplit(data, ":")
 	l = len(fragments)
-	if l < 3 || 8 < l {
+	if l < 3 || 9 < l {
+		return false
+	}
+	// "::" at the very beginning or end gives two empty fragments, so seven
+	// groups with such a "::" (standing for a single zero group) make nine.
+	if l == 9 && !(len(fragments[0]) == 0 && len(fragments[1]) == 0 ||
+		len(fragments[7]) == 0 && len(fragments[8]) == 0) {
 		return false
 	}
 	var hasEmpty bool
